@@ -75,6 +75,6 @@ def exec (s : Sh) : PC → Sh × Next PC
 
 def init : Sh := { next := fun _ => none, head := 0, tail := 0 }
 
-def algo : Algo := { Sh, PC, start, label, exec }
+@[reducible] def algo : Algo := { Sh, PC, start, label, exec }
 
 end GoaktVerif.Model.C04.Unbounded
